@@ -7,7 +7,7 @@ import urllib.parse
 from vf import tlc
 from vf.tlc import MachineryError
 
-HOST = {'name': 'server01', 'fqdn': 'db.example.org', 'ipv4': '192.0.2.7', 'ipv6': '2001:db8::7',
+HOST = {'name': 'server01', 'fqdn': 'db.example.org', 'name_mixed': 'Server01.Example.ORG', 'ipv6_upper': '2001:DB8::7F', 'ipv4': '192.0.2.7', 'ipv6': '2001:db8::7',
         'ipv6_full': '2001:0db8:85a3:0000:0000:8a2e:0370:7334', 'ipv6_scoped': 'fe80::1%eth0',
         'ipv6_scope1': 'fe80::2%1', 'ipv6_scope15': 'fe80::3%enp0s31f6vlan42', 'ipv6_v4mapped': '::ffff:192.0.2.1'}
 assert len(HOST['ipv6_scope15'].split('%')[1]) == 15
